@@ -349,7 +349,29 @@ def obligations():
     return out, aug
 
 
+def rhs_obligations():
+    """the right-hand-side functions handed to odeint (_d*_) must not write into the state vector they are given
+    (the odeint contract assumes a pure dfunc).  `.shape = ...` on a slice VIEW of the state only reshapes the view
+    object and is not a data mutation."""
+    defs, summaries = analyze_all()
+    out = []
+    for name, (rel, fn) in sorted(defs.items()):
+        if not (name.startswith('_d') and name.endswith('_')):
+            continue
+        p0 = params_of(fn)[0]
+        sites = [(l, w) for (l, w) in summaries[name].mutates.get(p0, []) if '.shape = ' not in w]
+        out.append(Ob('frame-rhs:%s:%s' % (name, p0), '%s:%s' % (rel, name), 'frame', 'refuted' if sites else 'discharged',
+                      backend='frame / may-alias analysis over the AST (all inputs)', seconds=0.0,
+                      detail='; '.join('line %d: %s' % x for x in sites[:3]), site='%s:%s line %d' % (rel, name, sites[0][0] if sites else fn.lineno),
+                      witness=dict(parameter=p0, sites=[dict(line=l, what=w) for l, w in sites[:5]]) if sites else None, engine='E2',
+                      replay_note='flow analysis: state vector %s' % ('may be written' if sites else 'is only read')))
+    return out
+
+
 if __name__ == '__main__':
+    for o in rhs_obligations():
+        if o.status != 'discharged':
+            print(o.id, '|', o.detail[:300])
     obs, aug = obligations()
     for o in obs:
         if o.status != 'discharged':
